@@ -122,6 +122,7 @@ HOST2 = 'beta.local.'
 VOCAB: Dict[str, Spec] = {
     'P1': Spec('PTR', TYPE1, alias=INST1),
     'P1u': Spec('PTR', '_HTTP._tcp.local.', alias=INST1_UP),  # same identity as P1, other spelling
+    'P1a': Spec('PTR', TYPE1, alias=INST1_UP),  # same identity as P1: owner spelled exactly, instance re-cased
     'P2': Spec('PTR', TYPE1, alias=INST2),
     'Q1': Spec('PTR', TYPE2, alias='Gamma._ipp._tcp.local.'),
     'A1': Spec('A', HOST1, address=b'\x0a\x00\x00\x01'),
